@@ -164,7 +164,7 @@ class Interp:
             if compare(m, name, a, b): yield sub
             return
         if name == 'print':
-            strs = [self.display(R.walk(x, sub), sub) for x in args]
+            strs = [self.display(R.walk(x, sub), sub, True) for x in args]
             self.out.append(format_print(strs)); yield sub; return
         if name == 'print_list':
             if len(args) != 1: raise Outside('print_list with several arguments')
@@ -254,9 +254,9 @@ class Interp:
             return arith(self.m, name, vals)
         raise Outside('function ' + str(name))
 
-    def display(self, t, sub):
+    def display(self, t, sub, vars_ok=False):
         """Rust Display of a term (concrete leaves only)"""
-        return display(R.resolve(t, sub) if t[0] in ('lst', 'cplx') else t)
+        return display(R.resolve(t, sub) if t[0] in ('lst', 'cplx') else t, vars_ok)
 
 
 CMP = {'equal': 'Eq', 'less_than': 'Lt', 'less_than_or_equal': 'Le', 'greater_than': 'Gt', 'greater_than_or_equal': 'Ge'}
@@ -353,7 +353,7 @@ def format_print(strs):
     return out
 
 
-def display(t):
+def display(t, vars_ok=False):
     k = t[0]
     if k == 'atom':
         if not isinstance(t[1], str): raise Outside('printing a symbolic atom')
@@ -365,10 +365,13 @@ def display(t):
         if isinstance(t[1], Sym): raise Outside('printing a symbolic number')
         return H.rust_f64(t[1])
     if k == 'anon': return '$_'
-    if k == 'var': raise Outside('printing an unbound variable (its text depends on the id)')
-    if k == 'cplx': return display(t[1][0]) + '(' + ', '.join(display(x) for x in t[1][1:]) + ')'
+    if k == 'var':
+        if not vars_ok: raise Outside('the text of an unbound variable depends on its id')
+        # what is written for an unbound variable is outside C04's claim: a placeholder that progs.out_matches accepts any text for
+        return '$?'
+    if k == 'cplx': return display(t[1][0], vars_ok) + '(' + ', '.join(display(x, vars_ok) for x in t[1][1:]) + ')'
     if k == 'lst':
-        s = ', '.join(display(x) for x in t[1])
-        if t[2] is not None: s += ' | ' + display(t[2])
+        s = ', '.join(display(x, vars_ok) for x in t[1])
+        if t[2] is not None: s += ' | ' + display(t[2], vars_ok)
         return '[' + s + ']'
     raise Outside('printing ' + k)
